@@ -12,9 +12,18 @@ type UnwrapAggPlanner struct {
 func (l *UnwrapAggPlanner) Process(ctx *shared.PlannerContext,
 	in chan []shared.LogEntry) (chan []shared.LogEntry, error) {
 	return l.process(ctx, in, aggregatorPlannerOps{
-		addValue: l.addValue,
-		finalize: l.finalize,
+		addValue:   l.addValue,
+		finalize:   l.finalize,
+		initStream: l.initStream,
 	})
+}
+
+func (l *UnwrapAggPlanner) initStream(ctx *shared.PlannerContext, stream *aggOpStream) {
+	switch l.Function {
+	case "first_over_time":
+		// timestamp of the value held for each window
+		stream.ts = make([]int64, len(stream.values)/2)
+	}
 }
 
 func (l *UnwrapAggPlanner) addValue(ctx *shared.PlannerContext, entry *shared.LogEntry, stream *aggOpStream) {
@@ -40,9 +49,10 @@ func (l *UnwrapAggPlanner) addValue(ctx *shared.PlannerContext, entry *shared.Lo
 			stream.values[idx+1] = 1
 		}
 	case "first_over_time":
-		if stream.values[idx] == 0 {
+		if stream.values[idx+1] == 0 || entry.TimestampNS < stream.ts[idx/2] {
 			stream.values[idx] = entry.Value
 			stream.values[idx+1] = 1
+			stream.ts[idx/2] = entry.TimestampNS
 		}
 	case "last_over_time":
 		stream.values[idx] = entry.Value
